@@ -218,16 +218,23 @@ def r12_3(ctx):
                               "(e.g. split('\\n') keeps '\\r'): %s" % [repr(l) for l in lv][:4], site=ctx.site(b, bb))
         # (b) inside: every piece pushed is the separator (line_ending), the indentation parameter or an item of the line iterator
         p_ws = fdo.param_index_by_name("whitespaces")
+        # the separator may reach the formatter as a parameter (formatter written as a free function): then every caller must hand
+        # it IOCtx.line_ending there
+        sites = C.all_call_sites(lib, lambda ns, t: fdo.name in ns)
+        sep_params = {pi for pi in range(1, fdo.arg_count + 1) if pi not in (p_it, p_ws) and sites and
+                      all(pi - 1 < len(t["args"]) and _sep_ok(b, t["args"][pi - 1]) for (b, bb, t) in sites)}
+        _sep_ok_fdo = lambda op: _sep_ok(fdo, op) or (lambda lv: bool(lv) and all(l.kind == "param" and l.data in sep_params for l in lv))(
+            C.trace(fdo, op, through_fields=True))
         for bb, t in fdo.calls():
             nm = C.callee_name(t)
             if nm == JOIN:
-                if _sep_ok(fdo, t["args"][1]):
+                if _sep_ok_fdo(t["args"][1]):
                     ctx.ok("format_directive_output: join separator is line_ending", site=ctx.site(fdo, bb))
                 else:
                     ctx.violation([fdo.name, "sep", nm], "format_directive_output joins with a separator that is not IOCtx.line_ending", site=ctx.site(fdo, bb))
             elif nm == PUSH_STR:
                 lv = C.trace(fdo, t["args"][1], through_fields=True, transparent=lambda tt: C.is_transparent(tt) or T.item_preserving(C.callee_name(tt)))
-                if _sep_ok(fdo, t["args"][1]):
+                if _sep_ok_fdo(t["args"][1]):
                     ctx.ok("format_directive_output: pushed separator is line_ending", site=ctx.site(fdo, bb))
                 elif lv and all(l.kind == "param" and l.data in (p_ws, p_it) for l in lv):
                     ctx.ok("format_directive_output: pushed piece is the indentation / a line item", site=ctx.site(fdo, bb))
@@ -261,7 +268,21 @@ def r12_3(ctx):
                     sorted(map(str, at))[:4]), site=ctx.site(rle, bb))
         # what is returned is the accumulator the pieces were pushed onto (an early `return self.to_string()` is raw text)
         rl = C.trace(rle, {"l": 0, "p": []})
-        if rl and all(l.kind == "call" and C.callee_name(l.data) in ("std::string::String::new", "std::string::String::with_capacity") for l in rl):
+        allowed = {("call", LINES), ("param", "line_ending")}
+
+        def assembled(l):
+            if l.kind != "call":
+                return False
+            nm = C.callee_name(l.data)
+            if nm in ("std::string::String::new", "std::string::String::with_capacity"):
+                return True
+            # `pieces.join(sep)` / `pieces.concat()` / `pieces.collect::<String>()`: the accumulator starts as the joined pieces
+            if nm in (JOIN, "std::slice::<impl [T]>::concat", "std::iter::Iterator::collect") and l.data["args"]:
+                at = piece_atoms(lib, rle, l.data["args"][0])
+                sep = piece_atoms(lib, rle, l.data["args"][1]) if nm == JOIN and len(l.data["args"]) > 1 else set()
+                return bool(at) and at <= allowed and sep <= {("param", "line_ending")} and (nm != JOIN or bool(sep))
+            return False
+        if rl and all(assembled(l) for l in rl):
             ctx.ok("replace_line_ending returns the string it assembled", site=ctx.site(rle, 0))
         else:
             ctx.violation([rle.name, "return"], "replace_line_ending can return text it did not assemble from lines() items and line_ending: %s" % (
@@ -389,7 +410,7 @@ def r13_2(ctx):
     fields = []
     reached_fns = set()
     for n in prev:
-        if n[0] in ("l", "r"):
+        if n[0] in ("l", "r", "t", "a"):
             fn = n[1]
             reached_fns.add(fn)
             if fn in allowed_fns or fn.startswith("<%s as " % ADT["Config"]):
@@ -579,6 +600,175 @@ def r12_4(ctx):
         c = const_by_name(lib, nm)
         if not c or c["value"] != want:
             ctx.violation(["const", nm], "constant %s is %s, expected %s (unix build)" % (nm, c["value"] if c else None, want))
+
+
+def _from_end(b, pl, p_len, lib):
+    """which byte of the buffer a place denotes, counted from the end of the first line: 1 = last, 2 = last but one; None = something
+    else.  Recognised: `buf[len - k]`, `buf[c]` in the arm of the match on `len` where len is the literal c + k, and the slice
+    pattern element `[.., x, y]`"""
+    idx = [e for e in pl["p"] if e["k"] in ("index", "constindex")]
+    if len(idx) != 1 or any(e["k"] in ("field", "subslice") for e in pl["p"]):
+        return None
+    e = idx[0]
+    if e["k"] == "constindex":
+        return e["offset"] if e.get("from_end") else ("abs", e["offset"])
+    lv = C.trace(b, {"l": e["l"], "p": []})
+    if not lv:
+        return None
+    ks = set()
+    for l in lv:
+        if l.kind == "binop" and l.data["op"].startswith("Sub"):
+            m = C.trace(b, l.data["a"])
+            kk = C.op_const(l.data["b"]) or next((C.op_const(x.data) for x in C.trace(b, l.data["b"]) if x.kind == "const"), None)
+            mo = re.match(r"(\d+)_usize$", kk or "")
+            is_len = bool(m) and all((x.kind == "param" and x.data == p_len) or
+                                      (x.kind == "call" and C.callee_name(x.data).endswith("::len")) or x.kind == "other" for x in m)
+            ks.add(int(mo.group(1)) if (mo and is_len) else None)
+        elif l.kind == "const" and re.match(r"(\d+)_usize$", C.op_const(l.data) or ""):
+            ks.add(("abs", int(re.match(r"(\d+)", C.op_const(l.data)).group(1))))
+        else:
+            ks.add(None)
+    return ks.pop() if len(ks) == 1 else None
+
+
+@rule("C12", "R12.7", floor=3)
+def r12_7(ctx):
+    """decision structure of the sniffer (bytes are only ever compared with '\\n' / '\\r', so the outcome is a finite set of edges):
+    CRLF is returned only past the edges `last byte == '\\n'` and `last but one == '\\r'`; LF only past `last byte == '\\n'`; the OS
+    default only where the first line is empty or its last byte is not '\\n'"""
+    lib = ctx.lib
+    b = body(ctx, "get_line_ending_from_buf")
+    if not b:
+        return
+    p_len = b.param_index_by_name("len")
+    # edges on which `len` is a known literal (arms of `match len`), to read `buf[0]` in the arm len == 1 as the last byte
+    len_is = {}
+    for sbb in C.switches(b):
+        c = C.switch_cond(b, sbb)
+        if c.kind == "int" and c.src and all(l.kind == "param" and l.data == p_len for l in c.src):
+            for eid, succ, lab in b.edges(sbb):
+                if lab and lab[0] == "val":
+                    len_is[eid] = lab[1]
+    zero_len = {eid for eid, v in len_is.items() if v == 0}
+    # .. and edges of a length comparison on which the first line is known to be empty (`len >= 1` false, `len == 0`, `is_empty()`)
+    def _is_len(op):
+        lv = C.trace(b, op)
+        return bool(lv) and all((x.kind == "param" and x.data == p_len) or (x.kind == "unop" and x.data.get("op") == "PtrMetadata") or
+                                (x.kind == "call" and C.callee_name(x.data).endswith("::len")) for x in lv)
+    ZERO = {("Ge", 1, False), ("Gt", 0, False), ("Lt", 1, True), ("Le", 0, True), ("Eq", 0, True), ("Ne", 0, False)}
+    for sbb in C.switches(b):
+        c = C.switch_cond(b, sbb)
+        if c.kind != "bool":
+            continue
+        for leaf in c.src:
+            if leaf.kind == "binop" and _is_len(leaf.data["a"]):
+                kc = next((C.op_const(x.data) for x in C.trace(b, leaf.data["b"]) if x.kind == "const"), None)
+                mo = re.match(r"(\d+)_usize$", kc or "")
+                if mo:
+                    for val, eid in C.bool_edges(b, sbb).items():
+                        truth = (not val) if leaf.neg else val
+                        if (leaf.data["op"], int(mo.group(1)), truth) in ZERO:
+                            zero_len.add(eid)
+            elif leaf.kind == "call" and C.callee_name(leaf.data).endswith("::is_empty"):
+                for val, eid in C.bool_edges(b, sbb).items():
+                    if ((not val) if leaf.neg else val):
+                        zero_len.add(eid)
+
+    def pos_at(pl, sbb):
+        r = _from_end(b, pl, p_len, lib)
+        if isinstance(r, tuple):
+            # absolute index c: the k-th byte from the end when the block is only reachable with len == c + k
+            for k in (1, 2):
+                e = {eid for eid, v in len_is.items() if v == r[1] + k}
+                if e and C.guarded(b, sbb, e):
+                    return k
+            return None
+        return r
+    eq = {(1, 10): set(), (2, 13): set()}       # edges on which byte #pos-from-end equals the value
+    ne = {(1, 10): set()}
+    for sbb in C.switches(b):
+        c = C.switch_cond(b, sbb)
+        t = b.term(sbb)
+        if c.kind == "bool":
+            for leaf in c.src:
+                if leaf.kind == "binop" and leaf.data["op"] in ("Eq", "Ne"):
+                    for x, y in ((leaf.data["a"], leaf.data["b"]), (leaf.data["b"], leaf.data["a"])):
+                        kc = re.match(r"(\d+)_u8$", C.op_const(y) or "")
+                        px = C.op_place(x)
+                        if not kc or px is None:
+                            continue
+                        # the compared byte: the operand itself or the place it was copied from
+                        cands = [px] + [r[3]["rv"]["op"]["pl"] for r in b.defs().get(px["l"], []) if not px["p"] and r[0] == "assign"
+                                        and r[3]["rv"]["k"] == "use" and r[3]["rv"]["op"].get("k") in ("copy", "move")]
+                        for pl in cands:
+                            pos = pos_at(pl, sbb)
+                            if pos in (1, 2):
+                                for val, eid in C.bool_edges(b, sbb).items():
+                                    truth = (not val) if leaf.neg else val
+                                    if leaf.data["op"] == "Ne":
+                                        truth = not truth
+                                    key = (pos, int(kc.group(1)))
+                                    if truth and key in eq:
+                                        eq[key].add(eid)
+                                    if not truth and key in ne:
+                                        ne[key].add(eid)
+                elif leaf.kind == "call" and C.callee_name(leaf.data) in ("std::slice::<impl [T]>::ends_with", "std::str::<impl str>::ends_with"):
+                    pat = {C.op_const(x.data) for x in C.trace(b, leaf.data["args"][1]) if x.kind == "const"}
+                    for val, eid in C.bool_edges(b, sbb).items():
+                        truth = (not val) if leaf.neg else val
+                        if pat and all(p_ and "\\r\\n" in p_ for p_ in pat):
+                            if truth:
+                                eq[(1, 10)].add(eid); eq[(2, 13)].add(eid)
+                        elif pat and all(p_ and ("\\n" in p_ or p_ == "10_u8") for p_ in pat):
+                            (eq if truth else ne)[(1, 10)].add(eid)
+        elif c.kind == "int" and t["discr"].get("k") in ("copy", "move"):
+            pos = pos_at(t["discr"]["pl"], sbb)
+            if pos in (1, 2):
+                for eid, succ, lab in b.edges(sbb):
+                    for key in list(eq):
+                        if key[0] != pos:
+                            continue
+                        if lab and lab[0] == "val" and lab[1] == key[1]:
+                            eq[key].add(eid)
+                        elif lab and ((lab[0] == "val" and lab[1] != key[1]) or (lab[0] == "otherwise" and key[1] in lab[1])) and key in ne:
+                            ne[key].add(eid)
+    if not eq[(1, 10)]:
+        ctx.unverified("sniffer decision structure", detail="no comparison of the last byte of the first line with '\\n' was recognised "
+                       "(a different algorithm): which constant is returned when is not decided", site=ctx.site(b, 0))
+        return
+    rets = {}
+    for bb, si, st in b.stmts():
+        if st["k"] == "assign" and st["lhs"]["l"] == 0 and not st["lhs"]["p"] and st["rv"]["k"] == "use":
+            for l in C.trace(b, st["rv"]["op"]):
+                if l.kind == "const":
+                    rets.setdefault(C.op_const(l.data), set()).add(bb)
+    os_default = const_by_name(lib, "OS_LINE_ENDING")
+    os_val = os_default["value"] if os_default else '"\\n"'
+    # CRLF
+    for bb in sorted(rets.get('"\\r\\n"', ())):
+        if C.guarded(b, bb, eq[(1, 10)]) and eq[(2, 13)] and C.guarded(b, bb, eq[(2, 13)]):
+            ctx.ok("CRLF only past `last == \\n` and `last but one == \\r`", site=ctx.site(b, bb))
+        elif os_val == '"\\r\\n"' and (not zero_len and not ne[(1, 10)] or C.guarded(b, bb, zero_len | ne[(1, 10)])):
+            ctx.ok("CRLF as the OS default", site=ctx.site(b, bb))
+        else:
+            ctx.violation(["crlf"], "the sniffer can answer CRLF although the first line does not end with \\r\\n", site=ctx.site(b, bb),
+                          witness=C.witness(b, bb, eq[(1, 10)] | eq[(2, 13)]))
+    # LF (on unix also the OS default: a return site of "\n" is either past `last == \n`, or on the default side)
+    for bb in sorted(rets.get('"\\n"', ())):
+        if C.guarded(b, bb, eq[(1, 10)]):
+            # .. and not where the line ends with \r\n: the CRLF answer must not be shadowed
+            if eq[(2, 13)] and not C.guarded(b, bb, {e for e in eq[(2, 13)]}) and bb in C.after_edges(b, eq[(2, 13)]):
+                ctx.violation(["lf-shadows-crlf"], "the sniffer answers LF on a path where the first line ends with \\r\\n", site=ctx.site(b, bb))
+            else:
+                ctx.ok("LF only past `last == \\n`", site=ctx.site(b, bb))
+        elif os_val == '"\\n"' and C.guarded(b, bb, zero_len | ne[(1, 10)]):
+            ctx.ok("OS default only where the line is empty or does not end with \\n", site=ctx.site(b, bb))
+        else:
+            ctx.violation(["lf"], "the sniffer can answer LF / the OS default on a path that neither saw `last byte == \\n` nor its negation "
+                          "(a first line ending with \\r\\n could get the default)", site=ctx.site(b, bb),
+                          witness=C.witness(b, bb, eq[(1, 10)] | zero_len | ne[(1, 10)]))
+    if '"\\r\\n"' not in rets:
+        ctx.violation(["no-crlf"], "the sniffer never answers CRLF", site=ctx.site(b, 0))
 
 
 PARTIAL_READS = re.compile(r"^(std::io::BufRead::fill_buf|std::io::Read::read|std::io::Read::read_exact|std::io::Read::take|std::io::Read::read_buf"
